@@ -183,6 +183,10 @@ class WMSSource(MapLayer):
         if self.coverage != other.coverage:
             return False
 
+        if self.coverage and self.coverage.clip != other.coverage.clip:
+            # coverages compare equal by geometry only, the combined layer is clipped (or not) as a whole
+            return False
+
         if (query.dimensions_for_params(self.fwd_req_params) !=
                 query.dimensions_for_params(other.fwd_req_params)):
             return False
